@@ -1,7 +1,8 @@
 /-
   Oracle commands for C12 (crash model of the model store).
 
-    effects <store> <hashes> <chunk> <op>      → the operation's effect list + outcome
+    effects <store> <hashes> <chunk> <am> <ap> <op>  → the operation's effect list + outcome
+      (<am>/<ap> = 1: the tree writes manifests / part records atomically — detected by the driver from the real trace)
     crash <k> <store> <hashes> <chunk> <op>    → the store after the first k effects
     restart <store>                            → the store after the start-up sequence
     rerun <k> <store> <hashes> <chunk> <op>    → outcome of op on restart(crash k) and the readable manifests after it
@@ -78,12 +79,14 @@ def insertSorted (x : String) : List String → List String
 
 def sortDedup (l : List String) : List String := l.foldr insertSorted []
 
-def mkEnv (hs : List (Bytes × Digest)) (k : Nat) : Env :=
+def mkEnv (hs : List (Bytes × Digest)) (k : Nat) (am ap : Bool) : Env :=
   { hash := fun bs => match hs.find? (fun e => e.1 == bs) with
       | some e => e.2
       | none => "?" ++ hexOrDash bs
     chunk := chunksOf k
-    ord := sortDedup }
+    ord := sortDedup
+    atomicMan := am
+    atomicPart := ap }
 
 def pBlob : TP (Digest × Bytes) := do let d ← tok; let b ← hex; pure (d, b)
 
@@ -175,8 +178,10 @@ def pJob : TP Job := do
   let st ← pStore
   let hs ← pHashes
   let k ← nat
+  let am ← nat
+  let ap ← nat
   let op ← pOp
-  pure ⟨st, mkEnv hs k, op⟩
+  pure ⟨st, mkEnv hs k (am != 0) (ap != 0), op⟩
 
 def handle (toks : List String) : Option String :=
   match toks with
